@@ -30,7 +30,7 @@ class Spec(object):
         self.keep = []        # keeps the python objects of by_py alive (ids must not be reused)
         self.stopped = None   # reason why checking stopped
         self.db_error = False # an operation of this session failed inside the database layer (flush / load): the transaction may hold garbage
-        self.tainted = set()  # (owner, attribute) of collections from which this session removed items with cascade delete
+        self.tainted = set()  # (owner, attribute) of collections from which this session removed items (remove / assign)
         self.violations = []  # (check, detail)
         self.db_error_at_commit = False
 
@@ -142,7 +142,8 @@ class Spec(object):
         if self.kind(e, a) == 'm2m': return self.m2m_change(x, a, items, False)
         for b in sorted(items):
             if b in self.cur and self.cur[b]['vals'].get(at['rev']) == x:
-                if self.cascade(e, a): self.delete(b); self.tainted.add((x, a))
+                self.tainted.add((x, a))
+                if self.cascade(e, a): self.delete(b)
                 else: self.cur[b]['vals'][at['rev']] = None
 
     def link(self, x, a, items):
@@ -210,6 +211,7 @@ class Spec(object):
                 self.db_error = True
             return
         if self.stopped: return
+        self.pre_unsaved = set(x for x, o in self.cur.items() if o['pk'] is None)     # objects without a primary key when the op started
         self.learn_pks()
         if k == 'flush': return
         self.step_checked(op, res, rn)
@@ -309,7 +311,7 @@ class Spec(object):
                 return
             mem = self.members(x, a)
             if k == 'count' and res[1] != len(mem):
-                self.bad('c10-count-after-cascade-remove' if (x, a) in self.tainted else 'c10-count', '%s.a%d has %d members %s, count() returned %r' % (self.show(x), a, len(mem), self.shows(mem), res[1]))
+                self.bad('c10-count-after-remove' if (x, a) in self.tainted else 'c10-count', '%s.a%d has %d members %s, count() returned %r' % (self.show(x), a, len(mem), self.shows(mem), res[1]))
             if k == 'isempty' and res[1] != (len(mem) == 0):
                 self.bad('c10-isempty', '%s.a%d has %d members, is_empty() returned %r' % (self.show(x), a, len(mem), res[1]))
             if k == 'contains':
@@ -360,7 +362,7 @@ class Spec(object):
             return
         if isinstance(y, bool) or (at['k'] == 'int' and y is not None and not isinstance(y, int)) or (at['k'] == 'str' and not isinstance(y, str)): return
         want = set(x for x in live() if self.cur[x]['vals'].get(a) == y)
-        unsaved = at['k'] == 'ref' and y is not None and self.cur[y]['pk'] is None      # the criterion is an object without a primary key yet
+        unsaved = at['k'] == 'ref' and y is not None and y in getattr(self, 'pre_unsaved', ())      # the criterion is an object that had no primary key yet
         if k == 'select':
             if ok: self.cmp_objs('c10-select-by-unsaved-object' if unsaved else 'c10-select', res, want, rn, e)
             return
